@@ -951,14 +951,20 @@ Proof.
   apply colinfo_eqb_eq in E. subst b. assert (colinfo_eqb a a = true) by (apply colinfo_eqb_eq; reflexivity). congruence.
 Qed.
 
-Definition rowcond (newT : name) (C : column) (cd : coldelta O) (r : Z) : Prop :=
+(* the value the ghost column holds for a row (up to encoding): the `before` of its pending delta, or the real cell *)
+Definition prev (sm : summary) (t c : name) (C : column) (r : Z) : V :=
+  match dget sm t c r with Some (b, _) => b | None => col_get O C r end.
+
+(* the side conditions of the doModifyColumn triple for one row.  p: the value before the ModifyColumn, f2: the cell after
+   the triple, cd: the delta that the per-column flush pops *)
+Definition rowcond (newT : name) (p f2 : Z -> V) (cd : coldelta O) (r : Z) : Prop :=
   match delta_get O cd r with
   | Some (b, a) =>
-      venc O b (col_get O C r) = true /\
-      (venc O b a = false \/ venc O (vnorm O newT (col_get O C r)) (col_get O C r) = true)
-  | None => venc O (vnorm O newT (col_get O C r)) (col_get O C r) = true
+      venc O b (p r) = true /\
+      ((venc O b a = false /\ venc O (f2 r) (vnorm O newT a) = true) \/
+       (venc O b a = true /\ venc O (vnorm O newT (p r)) (p r) = true /\ venc O (f2 r) (vnorm O newT (p r)) = true))
+  | None => venc O (vnorm O newT (p r)) (p r) = true /\ venc O (f2 r) (vnorm O newT (p r)) = true
   end.
-
 
 Lemma same_marks_created : forall sm1 sm2 t c r, same_marks O sm1 sm2 -> created O sm2 t c r -> created O sm1 t c r.
 Proof.
@@ -966,28 +972,25 @@ Proof.
   rewrite M1, M2, M3. exact H.
 Qed.
 
-Lemma modflush_core : forall s0 g m t c mi T C s2 cd sm3,
+Lemma modflush_core : forall s0 g m t c mi T C s2 f2 cd sm3,
   gi s0 g D m ->
   find_table O (m_doc O m) t = Some T -> find_col O (t_cols O T) c = Some C ->
   colinfo_eqb (apply_modinfo mi (c_info O C)) (c_info O C) = false ->
-  (forall r, dget (m_sum O m) t c r = None) ->
-  col_upd O (m_doc O m) s2 t c T C (apply_modinfo mi (c_info O C))
-          (fun r => match delta_get O cd r with
-                    | Some (_, a) => vnorm O (ci_type (apply_modinfo mi (c_info O C))) a
-                    | None => vnorm O (ci_type (apply_modinfo mi (c_info O C))) (col_get O C r)
-                    end) ->
+  col_upd O (m_doc O m) s2 t c T C (apply_modinfo mi (c_info O C)) f2 ->
   wf_state O s2 ->
   same_marks O (m_sum O m) sm3 ->
-  (forall t1 c1 r, dget sm3 t1 c1 r = dget (m_sum O m) t1 c1 r) ->
+  (forall t1 c1 r, dget sm3 t1 c1 r = if name_eqb t1 t && name_eqb c1 c then None else dget (m_sum O m) t1 c1 r) ->
   (forall t', td_find O (sm_tables O sm3) t' <> None -> t' = t \/ td_find O (sm_tables O (m_sum O m)) t' <> None) ->
   (forall r, delta_get O cd r <> None -> In r (t_rows O T)) ->
-  (forall r, In r (t_rows O T) -> rowcond (ci_type (apply_modinfo mi (c_info O C))) C cd r) ->
+  (forall r, In r (t_rows O T) ->
+             rowcond (ci_type (apply_modinfo mi (c_info O C))) (prev (m_sum O m) t c C) f2 cd r) ->
   exists g3, gi s0 g3 D (mkM O s2 (m_stored O m ++ [ModifyColumn O t c mi] ++ store_block O t c cd)
                            (m_undo O m ++ restore_block O sm3 t c cd ++ [ModifyColumn O t c (undo_modinfo mi (c_info O C))])
                            sm3).
 Proof.
-  intros s0 g m t c mi T C s2 cd sm3 [Htr Hwfg Hwfs [Hnames [Hkeys Hafter]] Hrel Hlive Hredo]
-         Ef Ec Hne Hnod Hupd_s Hwf2 Hmarks Hdget Hkeys3 Hdrows Hrc.
+  intros s0 g m t c mi T C s2 f2 cd sm3 [Htr Hwfg Hwfs [Hnames [Hkeys Hafter]] Hrel Hlive Hredo]
+         Ef Ec Hne Hupd_s Hwf2 Hmarks Hdget Hkeys3 Hdrows Hrc.
+  set (p := prev (m_sum O m) t c C) in *.
   set (old := c_info O C) in *. set (new := apply_modinfo mi old) in *.
   set (a := ModifyColumn O t c mi). set (mb := ModifyColumn O t c (undo_modinfo mi old)).
   (* the ghost column *)
@@ -995,8 +998,9 @@ Proof.
   pose proof (Hcols c) as Hcc. rewrite Ec in Hcc.
   destruct (find_col O (t_cols O Tg) c) as [Cg|] eqn:Ecg; [|contradiction].
   destruct Hcc as [Hinfo Hcells0].
-  assert (Hcells : forall r, In r (t_rows O T) -> venc O (col_get O C r) (col_get O Cg r) = true).
-  { intros r Hr. specialize (Hcells0 r Hr). pose proof (Hnod r) as Hn. unfold dget in Hn. rewrite Hn in Hcells0. exact Hcells0. }
+  assert (Hcells : forall r, In r (t_rows O T) -> venc O (p r) (col_get O Cg r) = true).
+  { intros r Hr. specialize (Hcells0 r Hr). unfold p, prev, dget.
+    destruct (delta_get O (delta_of O (m_sum O m) t c) r) as [[b0 a0]|]; [apply Hcells0 | exact Hcells0]. }
   fold old in Hinfo.
   assert (Hcid : c <> id_name) by (eapply (wf_col_not_id O); [apply (Hwfg _ _ Efg) | exact Ecg]).
   destruct (Hwfg _ _ Efg) as [_ [_ Hnormg]]. pose proof (Hnormg _ _ Ecg) as Hng. unfold col_normal in Hng.
@@ -1019,14 +1023,17 @@ Proof.
   rewrite Hinfo1 in Hupd13.
   pose proof (replay_doc_wf _ _ _ Hwfg1 Hrep3) as Hwfg3.
   assert (Hrowcases : forall r, In r (t_rows O T) -> ~ In r (changed_rows O cd) ->
-            venc O (vnorm O (ci_type new) (col_get O C r)) (col_get O C r) = true /\
-            match delta_get O cd r with Some (b, a) => venc O b a = true /\ venc O b (col_get O C r) = true | None => True end).
+            venc O (vnorm O (ci_type new) (p r)) (p r) = true /\ venc O (f2 r) (vnorm O (ci_type new) (p r)) = true).
   { intros r Hr Hnc. pose proof (Hrc r Hr) as H. unfold rowcond in H.
-    destruct (delta_get O cd r) as [[b a0]|] eqn:Ed; [|split; [exact H | exact I]].
-    destruct H as [Hb [Hba|Hrt]].
-    - exfalso. apply Hnc. eapply (changed_rows_complete O); eassumption.
-    - split; [exact Hrt|]. split; [|exact Hb]. destruct (venc O b a0) eqn:E; [reflexivity|].
-      exfalso. apply Hnc. eapply (changed_rows_complete O); eassumption. }
+    destruct (delta_get O cd r) as [[b a0]|] eqn:Ed; [|exact H].
+    destruct H as [Hb [[Hba _]|[_ H]]]; [|exact H].
+    exfalso. apply Hnc. eapply (changed_rows_complete O); eassumption. }
+  assert (Hafterv : forall r b a0, In r (t_rows O T) -> delta_get O cd r = Some (b, a0) ->
+            venc O (f2 r) (vnorm O (ci_type new) a0) = true).
+  { intros r b a0 Hr Hd. pose proof (Hrc r Hr) as H. unfold rowcond in H. rewrite Hd in H.
+    destruct H as [Hb [[_ H]|[Hba [_ H]]]]; [exact H|].
+    eapply (venc_trans O L); [exact H|]. apply (vnorm_enc O L).
+    eapply (venc_trans O L); [apply (venc_sym O L); exact Hb | exact Hba]. }
   (* the value of the ghost column after the stored update, row by row *)
   set (f3 := fun r => if zmem r (changed_rows O cd)
                       then match delta_get O cd r with
@@ -1092,19 +1099,19 @@ Proof.
     + intros t1 T1' r Hf Hr. destruct (col_upd_rows O _ _ _ _ _ _ _ _ t1 T1' Hupd13 Hf) as [T1 [Hf1 Hr1]].
       destruct Hmarks as [_ [_ [_ M4]]]. rewrite <- M4. eapply Hafter; [exact Hf1 | rewrite <- Hr1; exact Hr].
   - eapply (calc_rel_col_upd O); [exact Hrel | exact Hupd_s | exact Hupd13 | | |].
-    + intros t1 c1 r _. apply Hdget.
-    + intros r. change (dget sm3 t c r = None). rewrite Hdget. apply Hnod.
+    + intros t1 c1 r Hne1. change (dget sm3 t1 c1 r = dget (m_sum O m) t1 c1 r). rewrite Hdget.
+      destruct (name_eqb t1 t && name_eqb c1 c) eqn:E; [|reflexivity]. exfalso. apply andb_true_iff in E. destruct E as [E1 E2].
+      apply name_eqb_eq in E1, E2. subst. apply Hne1. reflexivity.
+    + intros r. change (dget sm3 t c r = None). rewrite Hdget, !name_eqb_refl. reflexivity.
     + intros r Hr. cbv beta. unfold f3.
       assert (Hrg : In r (t_rows O Tg)) by (apply Hrows; exact Hr). rewrite (Hget1 r Hrg).
       destruct (zmem r (changed_rows O cd)) eqn:Ez.
-      * destruct (delta_get O cd r) as [[b a0]|]; [apply (venc_refl O L)|].
-        apply (vnorm_enc O L). apply Hcells. exact Hr.
-      * apply zmem_false in Ez. destruct (Hrowcases r Hr Ez) as [_ Hd].
-        destruct (delta_get O cd r) as [[b a0]|]; [|apply (vnorm_enc O L); apply Hcells; exact Hr].
-        destruct Hd as [Hba Hb]. apply (vnorm_enc O L).
-        eapply (venc_trans O L); [apply (venc_sym O L); exact Hba|].
-        eapply (venc_trans O L); [exact Hb | apply Hcells; exact Hr].
-  - intros t1 c1 r Hg. rewrite Hdget in Hg.
+      * destruct (delta_get O cd r) as [[b a0]|] eqn:Ed.
+        -- eapply Hafterv; eassumption.
+        -- exfalso. apply zmem_In in Ez. exact (changed_rows_in O _ _ Ez Ed).
+      * apply zmem_false in Ez. destruct (Hrowcases r Hr Ez) as [_ H2].
+        eapply (venc_trans O L); [exact H2|]. apply (vnorm_enc O L). apply Hcells. exact Hr.
+  - intros t1 c1 r Hg. rewrite Hdget in Hg. destruct (name_eqb t1 t && name_eqb c1 c); [congruence|].
     destruct (Hlive t1 c1 r Hg) as [Hdf|[Hdf|[T1 [C1 [Q1 [Q2 Q3]]]]]]; [left; exact Hdf | right; left; exact Hdf|].
     destruct (col_upd_key O _ _ _ _ _ _ _ _ _ _ _ _ Hupd_s Q1 Q2) as [T1' [C1' [Q1' [Q2' Qr]]]].
     right. right. exists T1', C1'. split; [exact Q1'|]. split; [exact Q2'|]. rewrite Qr.
@@ -1156,54 +1163,72 @@ Definition no_delta_entry (sm : summary) (t c : name) : bool :=
   | Some td => match cd_find O (td_deltas O td) c with None => true | Some _ => false end
   end.
 
-Definition rowcondb (newT : name) (C : column) (cd : coldelta O) (r : Z) : bool :=
+Definition rowcondb (newT : name) (p f2 : Z -> V) (cd : coldelta O) (r : Z) : bool :=
   match delta_get O cd r with
   | Some (b, a) =>
-      venc O b (col_get O C r) && (negb (venc O b a) || venc O (vnorm O newT (col_get O C r)) (col_get O C r))
-  | None => venc O (vnorm O newT (col_get O C r)) (col_get O C r)
+      venc O b (p r) &&
+      (if venc O b a then venc O (vnorm O newT (p r)) (p r) && venc O (f2 r) (vnorm O newT (p r))
+       else venc O (f2 r) (vnorm O newT a))
+  | None => venc O (vnorm O newT (p r)) (p r) && venc O (f2 r) (vnorm O newT (p r))
   end.
 
-Lemma rowcondb_sound : forall newT C cd r, rowcondb newT C cd r = true -> rowcond newT C cd r.
+Lemma rowcondb_sound : forall newT p f2 cd r, rowcondb newT p f2 cd r = true -> rowcond newT p f2 cd r.
 Proof.
-  intros newT C cd r H. unfold rowcondb in H. unfold rowcond. destruct (delta_get O cd r) as [[b a]|]; [|exact H].
-  apply andb_true_iff in H. destruct H as [H1 H2]. split; [exact H1|]. apply orb_true_iff in H2.
-  destruct H2 as [H2|H2]; [left; apply negb_true_iff; exact H2 | right; exact H2].
+  intros newT p f2 cd r H. unfold rowcondb in H. unfold rowcond. destruct (delta_get O cd r) as [[b a]|].
+  - apply andb_true_iff in H. destruct H as [H1 H2]. split; [exact H1|]. destruct (venc O b a) eqn:E.
+    + right. apply andb_true_iff in H2. destruct H2 as [H2 H3]. auto.
+    + left. auto.
+  - apply andb_true_iff in H. exact H.
 Qed.
 
+Definition modflush_calcs (t c : name) (ochs : option (list (change O))) : list (event O) :=
+  match ochs with Some chs => [Calc O t c chs] | None => [] end.
+
+Definition modflush_events (t c : name) (mi : modinfo) (ochs : option (list (change O))) : list (event O) :=
+  (Doc O (ModifyColumn O t c mi) :: modflush_calcs t c ochs) ++ [FlushCol O t c].
+
+(* the side conditions of the triple, checked on the machine BEFORE it: the ModifyColumn changes the column info; after
+   the ModifyColumn and the conversion delta, every row of the delta that the flush will pop exists, and every row of the
+   table passes rowcond (prev: the value before, the cell after the two events: the value after) *)
 Definition modflush_okb (m : mstate O) (t c : name) (mi : modinfo) (ochs : option (list (change O))) : bool :=
   match find_table O (m_doc O m) t with
   | Some T =>
       match find_col O (t_cols O T) c with
       | Some C =>
           let new := apply_modinfo mi (c_info O C) in
-          let chs := match ochs with Some chs => chs | None => [] end in
-          negb (colinfo_eqb new (c_info O C)) && no_delta_entry (m_sum O m) t c &&
-          forallb (fun ch : change O => zmem (fst ch) (t_rows O T)) chs &&
-          forallb (rowcondb (ci_type new) C (fold_left (delta_add O) chs [])) (t_rows O T)
+          negb (colinfo_eqb new (c_info O C)) &&
+          match steps O m (Doc O (ModifyColumn O t c mi) :: modflush_calcs t c ochs) with
+          | Ok m2 =>
+              match find_table O (m_doc O m2) t with
+              | Some T2 =>
+                  match find_col O (t_cols O T2) c with
+                  | Some C2 =>
+                      let cd := delta_of O (m_sum O m2) t c in
+                      forallb (fun ch : change O => zmem (fst ch) (t_rows O T)) cd &&
+                      forallb (rowcondb (ci_type new) (prev (m_sum O m) t c C) (col_get O C2) cd) (t_rows O T)
+                  | None => false
+                  end
+              | None => false
+              end
+          | Err _ => false
+          end
       | None => false
       end
   | None => false
   end.
 
-Lemma no_entry_dget : forall sm t c r, no_delta_entry sm t c = true -> dget sm t c r = None.
+Lemma delta_get_In : forall (cd : coldelta O) r x, delta_get O cd r = Some x -> In (r, x) cd.
 Proof.
-  intros sm t c r H. unfold no_delta_entry in H. unfold dget, delta_of.
-  destruct (td_find O (sm_tables O sm) t) as [td|]; [|reflexivity].
-  destruct (cd_find O (td_deltas O td) c); [discriminate | reflexivity].
+  induction cd as [|[r0 x0] cd IH]; intros r x H; cbn in H; [discriminate|].
+  destruct (Z.eqb_spec r r0) as [->|Hne]; [inversion H; subst; left; reflexivity | right; apply IH; exact H].
 Qed.
 
-Lemma add_changes_entry : forall (sm : summary) t c chs, no_delta_entry sm t c = true ->
-  exists td, td_find O (sm_tables O (sum_apply O sm (SAddChanges O t c chs))) t = Some td /\
-             cd_find O (td_deltas O td) c = Some (fold_left (delta_add O) chs []).
+Lemma delta_get_rows : forall (cd : coldelta O) (rows : list Z) r,
+  forallb (fun ch : change O => zmem (fst ch) rows) cd = true -> delta_get O cd r <> None -> In r rows.
 Proof.
-  intros sm t c chs H. cbn [sum_apply]. rewrite (td_find_with_table O), name_eqb_refl. eexists. split; [reflexivity|].
-  cbn [td_deltas]. rewrite (cd_find_put O), name_eqb_refl. f_equal. f_equal.
-  unfold no_delta_entry in H. unfold for_table. destruct (td_find O (sm_tables O sm) t) as [td|]; [|reflexivity].
-  destruct (cd_find O (td_deltas O td) c); [discriminate | reflexivity].
+  intros cd rows r H Hd. destruct (delta_get O cd r) as [x|] eqn:E; [|congruence].
+  rewrite forallb_forall in H. specialize (H _ (delta_get_In _ _ _ E)). cbn [fst] in H. apply zmem_In. exact H.
 Qed.
-
-Definition modflush_events (t c : name) (mi : modinfo) (ochs : option (list (change O))) : list (event O) :=
-  Doc O (ModifyColumn O t c mi) :: match ochs with Some chs => [Calc O t c chs] | None => [] end ++ [FlushCol O t c].
 
 Lemma gi_modflush : forall s0 g m t c mi ochs m3,
   gi s0 g D m -> modflush_okb m t c mi ochs = true -> steps O m (modflush_events t c mi ochs) = Ok m3 ->
@@ -1212,83 +1237,93 @@ Proof.
   intros s0 g m t c mi ochs m3 Hgi Hok H. unfold modflush_okb in Hok.
   destruct (find_table O (m_doc O m) t) as [T|] eqn:Ef; [|discriminate].
   destruct (find_col O (t_cols O T) c) as [C|] eqn:Ec; [|discriminate]. cbv zeta in Hok.
-  apply andb_true_iff in Hok. destruct Hok as [Hok H4]. apply andb_true_iff in Hok. destruct Hok as [Hok H3].
-  apply andb_true_iff in Hok. destruct Hok as [H1 H2]. apply negb_true_iff in H1.
-  assert (Hnod : forall r, dget (m_sum O m) t c r = None) by (intro r; apply no_entry_dget; exact H2).
-  rewrite forallb_forall in H4.
-  unfold modflush_events in H. cbn [steps] in H.
-  destruct (step O m (Doc O (ModifyColumn O t c mi))) as [m1|] eqn:E1; cbn [bind] in H; [|discriminate].
+  apply andb_true_iff in Hok. destruct Hok as [H1 Hok]. apply negb_true_iff in H1.
+  unfold modflush_events in H. rewrite (steps_app O) in H.
+  destruct (steps O m (Doc O (ModifyColumn O t c mi) :: modflush_calcs t c ochs)) as [m2|] eqn:E12; [|discriminate].
+  destruct (find_table O (m_doc O m2) t) as [T2|] eqn:Ef2; [|discriminate].
+  destruct (find_col O (t_cols O T2) c) as [C2|] eqn:Ec2; [|discriminate].
+  apply andb_true_iff in Hok. destruct Hok as [H3 H4]. rewrite forallb_forall in H4.
+  set (cd := delta_of O (m_sum O m2) t c) in *.
+  (* the first two events *)
+  cbn [steps] in E12.
+  destruct (step O m (Doc O (ModifyColumn O t c mi))) as [m1|] eqn:E1; cbn [bind] in E12; [|discriminate].
   destruct (step_doc_inv _ _ _ E1) as [s1 [u [ops [Ha ->]]]].
   destruct (modify_upd O _ t c mi s1 u ops T C Ha Ef Ec H1) as [-> [-> Hupd1]]. cbn [fold_left] in *.
   destruct Hgi as [Htr Hwfg Hwfs [Hnames [Hkeys Hafter]] Hrel Hlive Hredo].
   pose proof (apply_doc_wf O L _ _ _ _ Hwfs Ha) as Hwf1.
   pose proof (mkGI s0 g D m Htr Hwfg Hwfs (conj Hnames (conj Hkeys Hafter)) Hrel Hlive Hredo) as Hgi.
-  destruct ochs as [chs|].
-  - (* with a conversion delta *)
-    cbn [app steps] in H.
-    destruct (step O _ (Calc O t c chs)) as [m2|] eqn:E2; cbn [bind] in H; [|discriminate].
-    cbn [step m_doc m_stored m_undo m_sum] in E2.
-    destruct (calc_cells O s1 t c chs) as [s2|] eqn:Ecc; cbn [bind] in E2; [|discriminate]. inversion E2; subst m2; clear E2.
-    assert (Hs1t : exists T1 C1, find_table O s1 t = Some T1 /\ find_col O (t_cols O T1) c = Some C1).
-    { destruct Hupd1 as [_ [T1 [C1 [_ [A2 [_ [_ [_ [A6 _]]]]]]]]]. eauto. }
-    destruct Hs1t as [T1 [C1 [Ef1 Ec1]]].
-    pose proof (calc_upd O s1 t c chs s2 T1 C1 Ecc Ef1 Ec1) as Hupd2.
-    destruct (col_upd_trans O _ _ _ _ _ _ _ _ _ _ _ _ _ Hupd1 Hupd2) as [Hupd12 [Hrows1 [Hinfo1 Hget1]]].
-    rewrite Hinfo1 in Hupd12.
-    set (cd := fold_left (delta_add O) chs []) in *.
-    assert (Hupd_s : col_upd O (m_doc O m) s2 t c T C (apply_modinfo mi (c_info O C))
-              (fun r => match delta_get O cd r with
-                        | Some (_, a) => vnorm O (ci_type (apply_modinfo mi (c_info O C))) a
-                        | None => vnorm O (ci_type (apply_modinfo mi (c_info O C))) (col_get O C r)
-                        end)).
-    { eapply (col_upd_ext O); [exact Hupd12|]. intros r Hr. cbv beta. rewrite (calc_get O chs C1 r). fold cd.
-      rewrite Hinfo1. destruct (delta_get O cd r) as [[b a0]|]; [reflexivity | apply Hget1; exact Hr]. }
-    pose proof (calc_cells_wf O L _ _ _ _ _ Hwf1 Ecc) as Hwf2.
-    assert (Hdrows : forall r, delta_get O cd r <> None -> In r (t_rows O T)).
-    { intros r Hd. apply (calc_delta_rows O) in Hd. apply in_map_iff in Hd. destruct Hd as [ch [<- Hch]].
-      rewrite forallb_forall in H3. apply zmem_In. apply H3. exact Hch. }
-    destruct (add_changes_entry (m_sum O m) t c chs H2) as [td2 [Htd2 Hcd2]]. fold cd in Hcd2.
-    set (sm2 := sum_apply O (m_sum O m) (SAddChanges O t c chs)) in *.
-    destruct (pop_spec sm2 t c td2 Htd2) as [Hm23 [Hd23 Hk23]].
-    destruct (add_changes_spec O (m_sum O m) t c chs) as [N1 [N2 [N3 [N4 N5]]]]. fold sm2 in N1, N2, N3, N4, N5.
-    set (sm3 := pop_delta sm2 t c td2) in *.
-    destruct (calc_rel_table _ _ _ _ _ Hrel Ef) as [Tg [Efg [Hrows Hcols]]].
-    assert (Hmarks : same_marks O (m_sum O m) sm3).
-    { destruct Hm23 as [M1 [M2 [M3 M4]]]. split; [|split; [|split]].
-      - intro t'. rewrite <- M1. symmetry. apply N1.
-      - intros t' c'. rewrite <- M2. symmetry. apply N2.
-      - intros t' r. rewrite <- M3. symmetry. apply N3.
-      - intros t' r. rewrite <- M4. symmetry. apply N4. }
-    assert (Hdok : delta_ok O sm3 t c cd).
-    { intros _. destruct (Hnames _ _ Efg) as [Hdt Hdc]. split; [exact Hdt|]. split.
-      - pose proof (Hcols c) as Hcc. rewrite Ec in Hcc. destruct (find_col O (t_cols O Tg) c) as [Cg|] eqn:Ecg; [|contradiction].
-        exact (Hdc _ _ Ecg).
-      - intros r Hd. destruct Hmarks as [_ [_ [_ M4]]]. rewrite <- M4. eapply Hafter; [exact Efg|]. apply Hrows. apply Hdrows. exact Hd. }
-    cbn [app steps] in H.
-    rewrite (flushcol_step _ t c td2 cd (m_undo O m) (ModifyColumn O t c (undo_modinfo mi (c_info O C)))) in H;
-      [| reflexivity | reflexivity | exact Htd2 | exact Hcd2 | exact Hdok].
-    cbn [bind m_doc m_stored m_undo m_sum] in H. inversion H; subst m3; clear H. fold sm3. rewrite <- app_assoc.
-    eapply modflush_core; try eassumption.
-    + intros t1 c1 r. rewrite Hd23. unfold dget. rewrite N5.
-      destruct (name_eqb t1 t && name_eqb c1 c) eqn:E; [|reflexivity].
-      apply andb_true_iff in E. destruct E as [Et Ec']. apply name_eqb_eq in Et. apply name_eqb_eq in Ec'. subst t1 c1.
-      symmetry. apply Hnod.
-    + intros t' Ht'. apply Hk23 in Ht'. unfold sm2 in Ht'. cbn [sum_apply] in Ht'. rewrite (td_find_with_table O) in Ht'.
-      name_cases t' t; [left; assumption | right; exact Ht'].
-    + intros r Hr. apply rowcondb_sound. apply H4. exact Hr.
-  - (* no value changed *)
-    cbn [app steps] in H. cbn [step m_doc m_stored m_undo m_sum] in H. rewrite rev_app_distr in H. cbn [rev app is_modify] in H.
-    assert (Hfl : flush_column O (m_sum O m) t c (m_stored O m ++ [ModifyColumn O t c mi], rev (rev (m_undo O m))) =
-                  Ok (m_sum O m, (m_stored O m ++ [ModifyColumn O t c mi], rev (rev (m_undo O m))))).
-    { unfold flush_column. unfold no_delta_entry in H2. destruct (td_find O (sm_tables O (m_sum O m)) t) as [td|]; [|reflexivity].
-      destruct (cd_find O (td_deltas O td) c); [discriminate | reflexivity]. }
-    rewrite Hfl in H. cbn [bind] in H. inversion H; subst m3; clear H. rewrite rev_involutive.
-    destruct (modflush_core s0 g m t c mi T C s1 [] (m_sum O m) Hgi Ef Ec H1 Hnod) as [g3 Hg3]; try assumption.
-    + repeat split; reflexivity.
-    + intros t1 c1 r. reflexivity.
-    + intros t' Ht'. right. exact Ht'.
-    + intros r Hd. cbn in Hd. congruence.
-    + exists g3. rewrite (restore_block_nil O) in Hg3.
+  set (mb := ModifyColumn O t c (undo_modinfo mi (c_info O C))) in *.
+  (* what the machine is after the ModifyColumn and the conversion delta *)
+  assert (Hm2 : exists s2 sm2,
+            m2 = mkM O s2 (m_stored O m ++ [ModifyColumn O t c mi]) (m_undo O m ++ [mb]) sm2 /\
+            wf_state O s2 /\ same_marks O (m_sum O m) sm2 /\
+            (forall t1 c1 r, name_eqb t1 t && name_eqb c1 c = false -> dget sm2 t1 c1 r = dget (m_sum O m) t1 c1 r) /\
+            (forall t', td_find O (sm_tables O sm2) t' <> None -> t' = t \/ td_find O (sm_tables O (m_sum O m)) t' <> None) /\
+            exists f, col_upd O (m_doc O m) s2 t c T C (apply_modinfo mi (c_info O C)) f).
+  { destruct ochs as [chs|]; cbn [modflush_calcs steps] in E12.
+    - destruct (step O _ (Calc O t c chs)) as [m2'|] eqn:E2; cbn [bind] in E12; [|discriminate]. inversion E12; subst m2'; clear E12.
+      cbn [step m_doc m_stored m_undo m_sum] in E2.
+      destruct (calc_cells O s1 t c chs) as [s2|] eqn:Ecc; cbn [bind] in E2; [|discriminate]. inversion E2; subst m2; clear E2.
+      assert (Hs1t : exists T1 C1, find_table O s1 t = Some T1 /\ find_col O (t_cols O T1) c = Some C1).
+      { destruct Hupd1 as [_ [T1 [C1 [_ [A2 [_ [_ [_ [A6 _]]]]]]]]]. eauto. }
+      destruct Hs1t as [T1 [C1 [Ef1 Ec1]]].
+      pose proof (calc_upd O s1 t c chs s2 T1 C1 Ecc Ef1 Ec1) as Hupd2.
+      destruct (col_upd_trans O _ _ _ _ _ _ _ _ _ _ _ _ _ Hupd1 Hupd2) as [Hupd12 [_ [Hinfo1 _]]]. rewrite Hinfo1 in Hupd12.
+      destruct (add_changes_spec O (m_sum O m) t c chs) as [N1 [N2 [N3 [N4 N5]]]].
+      exists s2, (sum_apply O (m_sum O m) (SAddChanges O t c chs)). split; [reflexivity|].
+      split; [exact (calc_cells_wf O L _ _ _ _ _ Hwf1 Ecc)|]. split.
+      { split; [|split; [|split]]; intros; symmetry; [apply N1 | apply N2 | apply N3 | apply N4]. }
+      split; [intros t1 c1 r E; unfold dget; rewrite N5, E; reflexivity|]. split.
+      { intros t' Ht'. cbn [sum_apply] in Ht'. rewrite (td_find_with_table O) in Ht'. name_cases t' t; [left; assumption | right; exact Ht']. }
+      eexists. exact Hupd12.
+    - inversion E12; subst m2; clear E12. exists s1, (m_sum O m). split; [reflexivity|]. split; [exact Hwf1|].
+      split; [repeat split; reflexivity|]. split; [reflexivity|]. split; [intros t' Ht'; right; exact Ht'|]. eexists. exact Hupd1. }
+  destruct Hm2 as [s2 [sm2 [-> [Hwf2 [Hm02 [Hd02 [Hk02 [f Hupd_s0]]]]]]]]. cbn [m_doc m_sum m_stored m_undo] in *.
+  destruct (col_upd_self_fun O _ _ _ _ _ _ _ _ T2 C2 Hupd_s0 Ef2 Ec2) as [Hupd_s [_ _]].
+  assert (Hdrows : forall r, delta_get O cd r <> None -> In r (t_rows O T)) by (intros r Hd; eapply delta_get_rows; eassumption).
+  destruct (calc_rel_table _ _ _ _ _ Hrel Ef) as [Tg [Efg [Hrows Hcols]]].
+  (* the per-column flush *)
+  cbn [steps] in H.
+  destruct (td_find O (sm_tables O sm2) t) as [td2|] eqn:Etd2.
+  - destruct (cd_find O (td_deltas O td2) c) as [cd2|] eqn:Ecd2.
+    + assert (Hcd : cd = cd2) by (unfold cd, delta_of; rewrite Etd2, Ecd2; reflexivity). subst cd2.
+      destruct (pop_spec sm2 t c td2 Etd2) as [Hm23 [Hd23 Hk23]].
+      set (sm3 := pop_delta sm2 t c td2) in *.
+      assert (Hmarks : same_marks O (m_sum O m) sm3).
+      { destruct Hm02 as [A1 [A2 [A3 A4]]]. destruct Hm23 as [M1 [M2 [M3 M4]]]. split; [|split; [|split]]; intros; congruence. }
+      assert (Hdok : delta_ok O sm3 t c cd).
+      { intros _. destruct (Hnames _ _ Efg) as [Hdt Hdc]. split; [exact Hdt|]. split.
+        - pose proof (Hcols c) as Hcc. rewrite Ec in Hcc. destruct (find_col O (t_cols O Tg) c) as [Cg|] eqn:Ecg; [|contradiction].
+          exact (Hdc _ _ Ecg).
+        - intros r Hd. destruct Hmarks as [_ [_ [_ M4]]]. rewrite <- M4. eapply Hafter; [exact Efg|]. apply Hrows. apply Hdrows. exact Hd. }
+      rewrite (flushcol_step _ t c td2 cd (m_undo O m) mb) in H; [| reflexivity | reflexivity | exact Etd2 | exact Ecd2 | exact Hdok].
+      cbn [bind m_doc m_stored m_undo m_sum] in H. inversion H; subst m3; clear H. fold sm3. rewrite <- app_assoc.
+      eapply modflush_core; try eassumption.
+      * intros t1 c1 r. rewrite Hd23. destruct (name_eqb t1 t && name_eqb c1 c) eqn:E; [reflexivity|]. apply Hd02. exact E.
+      * intros t' Ht'. apply Hk23 in Ht'. apply Hk02. exact Ht'.
+      * intros r Hr. apply rowcondb_sound. apply H4. exact Hr.
+    + (* no entry for the column: the flush does nothing *)
+      assert (Hcd : cd = []) by (unfold cd, delta_of; rewrite Etd2, Ecd2; reflexivity).
+      cbn [step m_doc m_stored m_undo m_sum] in H. rewrite rev_app_distr in H. cbn [rev app is_modify mb] in H.
+      unfold flush_column in H. rewrite Etd2, Ecd2 in H. cbn [bind] in H. inversion H; subst m3; clear H. rewrite rev_involutive.
+      destruct (modflush_core s0 g m t c mi T C s2 (col_get O C2) [] sm2 Hgi Ef Ec H1 Hupd_s Hwf2 Hm02) as [g3 Hg3].
+      * intros t1 c1 r. destruct (name_eqb t1 t && name_eqb c1 c) eqn:E; [|apply Hd02; exact E].
+        apply andb_true_iff in E. destruct E as [Q1 Q2]. apply name_eqb_eq in Q1, Q2. subst t1 c1. unfold dget, delta_of. rewrite Etd2, Ecd2. reflexivity.
+      * exact Hk02.
+      * intros r Hd. cbn in Hd. congruence.
+      * intros r Hr. apply rowcondb_sound. rewrite <- Hcd. apply H4. exact Hr.
+      * exists g3. rewrite (restore_block_nil O) in Hg3.
+        assert (Hsb : store_block O t c [] = []) by reflexivity. rewrite Hsb in Hg3. cbn [app] in Hg3. exact Hg3.
+  - assert (Hcd : cd = []) by (unfold cd, delta_of; rewrite Etd2; reflexivity).
+    cbn [step m_doc m_stored m_undo m_sum] in H. rewrite rev_app_distr in H. cbn [rev app is_modify mb] in H.
+    unfold flush_column in H. rewrite Etd2 in H. cbn [bind] in H. inversion H; subst m3; clear H. rewrite rev_involutive.
+    destruct (modflush_core s0 g m t c mi T C s2 (col_get O C2) [] sm2 Hgi Ef Ec H1 Hupd_s Hwf2 Hm02) as [g3 Hg3].
+    * intros t1 c1 r. destruct (name_eqb t1 t && name_eqb c1 c) eqn:E; [|apply Hd02; exact E].
+      apply andb_true_iff in E. destruct E as [Q1 Q2]. apply name_eqb_eq in Q1, Q2. subst t1 c1. unfold dget, delta_of. rewrite Etd2. reflexivity.
+    * exact Hk02.
+    * intros r Hd. cbn in Hd. congruence.
+    * intros r Hr. apply rowcondb_sound. rewrite <- Hcd. apply H4. exact Hr.
+    * exists g3. rewrite (restore_block_nil O) in Hg3.
       assert (Hsb : store_block O t c [] = []) by reflexivity. rewrite Hsb in Hg3. cbn [app] in Hg3. exact Hg3.
 Qed.
 
@@ -1372,12 +1407,6 @@ Qed.
 Definition avoidb (a : action) (sm : summary) : bool :=
   forallb (fun td => forallb (fun cd => forallb (fun ch : change O => negb (touchb a (fst td) (fst cd) (fst ch))) (snd cd))
                              (td_deltas O (snd td))) (sm_tables O sm).
-
-Lemma delta_get_In : forall (cd : coldelta O) r x, delta_get O cd r = Some x -> In (r, x) cd.
-Proof.
-  induction cd as [|[r0 x0] cd IH]; intros r x H; cbn in H; [discriminate|].
-  destruct (Z.eqb_spec r r0) as [->|Hne]; [inversion H; subst; left; reflexivity | right; apply IH; exact H].
-Qed.
 
 Lemma avoidb_sound : forall a sm, avoidb a sm = true -> forall t c r, touch O a t c r -> dget sm t c r = None.
 Proof.
